@@ -342,6 +342,7 @@ func checkC12(p *Program, r *Report) {
 	}
 	// equal children set the latch
 	okEq := false
+	eqHow := "IsEqual(left, right) true edge: latch = true"
 	var eqPos token.Pos
 	var rec []*ssa.Call
 	for _, b := range T.Blocks {
@@ -372,6 +373,17 @@ func checkC12(p *Program, r *Report) {
 			continue
 		}
 		eqPos = c.Pos()
+		// compared at every inner node that has a right child: no branch between computing the right child and the comparison
+		sameBlock := false
+		for _, rc := range rec {
+			if (c.Call.Args[0] == ssa.Value(rc) || c.Call.Args[1] == ssa.Value(rc)) && rc.Block() == b {
+				sameBlock = true
+			}
+		}
+		if !sameBlock {
+			eqHow = "the comparison of the two children is skipped on some path after the right child has been computed"
+			continue
+		}
 		for _, in := range b.Succs[0].Instrs {
 			if st, ok := in.(*ssa.Store); ok {
 				if fa, ok := st.Addr.(*ssa.FieldAddr); ok && fieldOfAddr(fa) == latch {
@@ -382,7 +394,7 @@ func checkC12(p *Program, r *Report) {
 			}
 		}
 	}
-	r.Add("C12.cursor", FnName(T), "an inner node with two equal children sets the latch (CVE-2012-2459)", eqPos, okEq, "IsEqual(left, right) true edge: latch = true")
+	r.Add("C12.cursor", FnName(T), "an inner node with two equal children sets the latch (CVE-2012-2459)", eqPos, okEq, eqHow)
 	r.Floor("C12.cursor", 5)
 
 	// ---- C12.fresh: every extraction starts from the initial traversal state (an object may be asked twice)
